@@ -325,3 +325,50 @@ Proof.
   apply (lookahead_frames v (rh_run v (g_rs g) rops) (length ms) z2 d2 Hi0 Hst0 ltac:(rewrite Hd0; exact Hs0)
            ltac:(exists ms, tl; rewrite Hd0; repeat split; assumption) ltac:(rewrite Hd0; exact Eg2)).
 Qed.
+
+(* ---------- transfer progress with a kernel that takes what it is offered ---------- *)
+(* a flush whose write takes everything offered empties the finished part of the output ring *)
+Theorem gflush_all v w ws k z w' n : wh_inv0 v ws -> wh_e ws = gw w ->
+  (Z.of_nat (edone (eq_st (gw w))) <= k)%Z -> gflush w k = Ok (z, w', n) ->
+  n = edone (eq_st (gw w)) /\ edone (eq_st (gw w')) = 0 /\ length (gwire w') = length (gwire w) + n.
+Proof.
+  intros Hi He Hk H. pose proof (wh_inv0_einv v ws Hi) as [Hq Hl]. rewrite He in Hq, Hl.
+  unfold gflush in H.
+  destruct (Nat.eqb_spec (edone (eq_st (gw w))) 0) as [Hz|Hz].
+  { inversion H; subst. repeat split; lia. }
+  destruct k as [|p|p]; try lia.
+  set (m := Nat.min (Z.to_nat (Z.pos p)) (edone (eq_st (gw w)))) in *.
+  assert (Hm : m = edone (eq_st (gw w))) by (unfold m; lia).
+  pose proof (qget_spec (eq_q (gw w)) 0 m Hq ltac:(lia)) as Hg.
+  destruct (Nat.leb_spec (0 + m) (qlen (eq_q (gw w)))) as [_|Hbad]; [|lia].
+  rewrite Hg in H. cbn [bind] in H.
+  destruct (qcrop0_ok (eq_q (gw w)) m Hq ltac:(lia)) as (o & Hcrop & _).
+  rewrite Hcrop in H. cbn [bind] in H. inversion H; subst z w' n; clear H.
+  cbn [gw gwire eq_st edone]. split; [exact Hm|]. split; [lia|].
+  rewrite app_length, length_slice; [reflexivity|]. rewrite contents_length by assumption. lia.
+Qed.
+
+(* a poll whose read takes at least one byte loads at least one byte: a full ring is enlarged first *)
+Theorem gpoll_progress v w g k z w' n : grel v w g -> 1 <= k -> gwire w <> [] ->
+  gpoll w k = Ok (z, w', n) -> 1 <= n /\ gwire w' = skipn n (gwire w).
+Proof.
+  intros (_ & _ & (Hi & Est & Hd & _) & _) Hk Hw H.
+  destruct (rh_cinv v (g_rs g) Hi Est) as (Hq & F & Hc). rewrite Hd in Hq, Hc.
+  unfold gpoll in H.
+  destruct (dqueue_shift_spec v F (gr w) Hq Hc) as (c & d1 & Es & _ & _ & Hq1 & _). rewrite Es in H. cbn [bind] in H.
+  destruct (qprepare_full (dq_q d1) 64 FILL Hq1) as (q' & fr & Eq & Hq' & Hm' & _ & Hl' & _).
+  pose proof (grow_cap_room (qmax (dq_q d1)) (qlen (dq_q d1)) 64 ltac:(apply Hq1)) as Hroom.
+  assert (Hx : exists q2, (if qlen (dq_q d1) =? qmax (dq_q d1)
+                  then match qprepare (dq_q d1) 64 FILL with Ok (q', _) => Ok (Some q') | Err _ => Ok None | Fault => Fault end
+                  else Ok (Some (dq_q d1))) = Ok (Some q2) /\ qinv q2 /\ 1 <= qmax q2 - qlen q2).
+  { destruct (Nat.eqb_spec (qlen (dq_q d1)) (qmax (dq_q d1))) as [Hfull|Hnf].
+    - exists q'. rewrite Eq. split; [reflexivity|]. split; [exact Hq'|]. rewrite Hm', Hl'. lia.
+    - exists (dq_q d1). split; [reflexivity|]. split; [exact Hq1|]. destruct Hq1 as (_ & Hle & _). lia. }
+  destruct Hx as (q2 & Ex & Hq2 & Hfree). rewrite Ex in H. cbn [bind] in H.
+  set (m := Nat.min (Nat.min k (length (gwire w))) (qmax q2 - qlen q2)) in *.
+  assert (Hm1 : 1 <= m).
+  { unfold m. destruct (gwire w); [contradiction|]. cbn [length]. lia. }
+  destruct (Nat.eqb_spec m 0); [lia|].
+  destruct (match qpush q2 (firstn m (gwire w)) with Ok q' => Ok q' | Err _ => Ok q2 | Fault => Fault end) as [q3| |]; [|discriminate|discriminate].
+  cbn [bind] in H. inversion H; subst. split; [exact Hm1|reflexivity].
+Qed.
